@@ -15,6 +15,7 @@ from dataclasses import dataclass, field
 import multiprocessing as mp
 
 ROOT = os.path.dirname(os.path.dirname(os.path.abspath(__file__)))
+OUT = os.environ.get("VERIF_OUT") or ROOT  # evidence/ and replays/ go here (redirected only by the mutant-testing scripts)
 NPROC = int(os.environ.get("VERIF_NPROC", "16"))
 
 
@@ -386,7 +387,7 @@ def run_property(pid: str, tier: str, only=None, verbose=False) -> int:
     reproduced = [v for v in violations if v["replay"].get("reproduced")]
     unreproduced = [v for v in violations if not v["replay"].get("reproduced")]
 
-    os.makedirs(os.path.join(ROOT, "replays", pid), exist_ok=True)
+    os.makedirs(os.path.join(OUT, "replays", pid), exist_ok=True)
     for kf, v in known:
         pass
     printed = set()
@@ -400,7 +401,7 @@ def run_property(pid: str, tier: str, only=None, verbose=False) -> int:
         blob = json.dumps(dict(property=pid, harness=v["harness"], params=_js(v["params"]), obligation=v["obligation"], model=v["model"],
                                detail=v["detail"], replay=v["replay"], tier=tier), indent=1, default=str)
         hsh = hashlib.sha1(blob.encode()).hexdigest()[:10]
-        path = os.path.join(ROOT, "replays", pid, f"{v['harness']}-{v['obligation'].replace('/', '_')}-{hsh}.json")
+        path = os.path.join(OUT, "replays", pid, f"{v['harness']}-{v['obligation'].replace('/', '_')}-{hsh}.json")
         with open(path, "w") as f:
             f.write(blob)
         vio_lines.append(f"VIOLATION property={pid} replay={path}")
@@ -444,13 +445,14 @@ def run_property(pid: str, tier: str, only=None, verbose=False) -> int:
             "stubs": getattr(mod, "STUBS", []),
             "outside_claim": getattr(mod, "OUTSIDE", []),
             "exit_code": code,
+            "source_tree": os.path.dirname(os.path.dirname(os.path.abspath(sys.modules["swcgeom"].__file__))),
         },
         "assumptions": getattr(mod, "ASSUMPTIONS", []),
         "wall_s": round(wall, 2),
         "violations": len(reproduced),
     }
-    os.makedirs(os.path.join(ROOT, "evidence"), exist_ok=True)
-    with open(os.path.join(ROOT, "evidence", f"{pid}.json"), "w") as f:
+    os.makedirs(os.path.join(OUT, "evidence"), exist_ok=True)
+    with open(os.path.join(OUT, "evidence", f"{pid}.json"), "w") as f:
         json.dump(evidence, f, indent=1, default=str)
 
     print(f"[{pid} {tier}] paths={dict((k, v) for k, v in total.items() if k.startswith('paths_'))} obligations={evidence['coverage']['obligations']} "
